@@ -275,6 +275,11 @@ impl Directive {
                         } else {
                             bail!("unknown device {} in {}", value, point,)
                         }
+                    } else {
+                        bail!("wrong format for .device, expected: {} in {}", opts, point,);
+                    }
+                    if values.len() > 1 {
+                        bail!("only one device is allowed for .device in {}", point);
                     }
                 } else {
                     bail!("wrong format for .device, expected: {} in {}", opts, point,);
